@@ -286,6 +286,37 @@ def earlystop_no_decision_stage(c):
                 {'history': 'create study; suggest 1; 3 x CheckTrialEarlyStoppingState(trial 1), policy: [] then stop', 'answers': answers, 'algorithm_calls': calls['n']})
 
 
+def malformed_spec_stage(c):
+  """A stored StudySpec that the service cannot convert (CreateStudy accepts a parameter without a value spec):
+  SuggestTrials cannot even build the request for the algorithm.  Whatever it answers, it must not leave its operation
+  unfinished - the second call must not be answered from the first call's abandoned record."""
+  from vizier._src.service import vizier_service, vizier_service_pb2 as vsp, study_pb2
+  for backend, url in (('ram', None), ('sqlmem', 'sqlite:///:memory:')):
+    sv = vizier_service.VizierServicer(database_url=url)
+    spec = study_pb2.StudySpec(algorithm='RANDOM_SEARCH')
+    spec.parameters.add(parameter_id='x')                      # no double / integer / discrete / categorical value spec
+    spec.metrics.add(metric_id='obj', goal=study_pb2.StudySpec.MetricSpec.GoalType.MAXIMIZE)
+    try:
+      study = sv.CreateStudy(vsp.CreateStudyRequest(parent='owners/o', study=study_pb2.Study(display_name='bad', study_spec=spec)))
+    except Exception:  # pylint: disable=broad-except
+      c.count(1, kind='fault:malformed-spec-refused-at-create')
+      continue
+    answers = []
+    for _ in range(3):
+      try:
+        op = sv.SuggestTrials(vsp.SuggestTrialsRequest(parent=study.name, suggestion_count=1, client_id='w'))
+        answers.append(['op', op.name.rsplit('/', 1)[-1], bool(op.done), bool(op.HasField('error'))])
+      except Exception as e:  # pylint: disable=broad-except
+        answers.append(['raised', type(e).__name__])
+    c.traces += 1
+    c.count(1, ('malformed-spec', backend), kind='fault:malformed-spec')
+    pending = [a for a in answers if a[0] == 'op' and not a[2]]
+    if pending:
+      c.prop_fail('operation-left-pending:malformed-study-spec',
+                  'on a study whose stored spec cannot be converted, SuggestTrials answered %s: an unfinished operation is returned again and again (backend %s)' % (answers, backend),
+                  {'backend': backend, 'history': 'CreateStudy(spec with a parameter without value spec); 3 x SuggestTrials(worker w)', 'answers': answers})
+
+
 def unreachable_pythia_stage(c):
   """Split deployment whose Pythia server is NOT reachable (study configured with a pythia_endpoint on an
   unused loopback port): SuggestTrials must TERMINATE with a reported failure (the stub's channel-ready
@@ -445,6 +476,7 @@ def run(c):
   fault_stage(c, remote=True)
   unreachable_pythia_stage(c)
   earlystop_no_decision_stage(c)
+  malformed_spec_stage(c)
   client_stage(c)
   # the client library's reporting of failures (operation.error -> RuntimeError, bounded polling): Model/Client.lean
   from vcheck import clientcheck
